@@ -116,14 +116,19 @@ pub fn check_all(name: &str) -> Vec<(String, Witness)> {
     // forms a dialect does not have (the builder drops the clause by design): not identifier positions there
     const SKIP: [(&str, usize); 2] = [("insert returning", 0), ("lock tables", 2)];
     let mut out = vec![];
-    for (label, sqls) in stmts(name) {
+    // the same statements with a harmless name: how many identifier tokens the name must come back as (a position that renders the
+    // name twice - `"n" = "excluded"."n"` - must decode to it twice: one good occurrence must not mask a bad one)
+    const PLAIN: &str = "zq9";
+    let reference = stmts(PLAIN);
+    for ((label, sqls), (_, ref_sqls)) in stmts(name).into_iter().zip(reference.into_iter()) {
         for (k, sql) in sqls.iter().enumerate() {
             if sql.is_empty() || SKIP.contains(&(label, k)) { continue; }
             let q = if k == 0 { '`' } else { '"' };
             let ids = idents(sql, q);
-            if !ids.iter().any(|i| i == name) {
+            let want = idents(&ref_sqls[k], q).iter().filter(|i| *i == PLAIN).count().max(1);
+            if ids.iter().filter(|i| *i == name).count() != want {
                 let be = ["mysql", "postgres", "sqlite"][k];
-                out.push((format!("{label}/{be}"), Witness { property: "C04", input: name.to_string(), observed: format!("{label} [{be}]: {sql}  -- identifier tokens decode to {ids:?}"), expected: format!("an identifier token decoding to {name:?}") }));
+                out.push((format!("{label}/{be}"), Witness { property: "C04", input: name.to_string(), observed: format!("{label} [{be}]: {sql}  -- identifier tokens decode to {ids:?}"), expected: format!("{want} identifier token(s) decoding to {name:?}") }));
             }
         }
     }
